@@ -442,7 +442,8 @@ BASELINE = {
     "EQ": ["bool"] + INTS + FLOATS + ["String", "R64", "C64"], "NEQ": ["bool"] + INTS + FLOATS + ["String", "R64", "C64"],
     "And": ["bool"], "Or": ["bool"], "Xor": ["bool"], "Not": ["bool"],
 }
-ALWAYS = {"arith": ["i16", "f64"], "compare": ["i16"], "logic": ["bool"]}
+QUICK_F64 = ("GT", "GTE", "LT", "LTE", "EQ", "NEQ")     # f64 adders: 550 s for one harness when measured - they stay seed-rotated
+L2_QUICK_FORMS = [("S", "S"), ("S", "VD"), ("VD", "VD"), ("MD", "MD"), ("MD", "VD"), ("RD", "MD")]
 L2_KINDS = {"arith": ["i16", "f64", "u8"], "compare": ["i16", "f64"], "logic": ["bool"]}
 
 
@@ -462,14 +463,38 @@ def plan(tier, seed):
         kinds = list(dict.fromkeys(BASELINE[lib] + src.get(lib, [])))
         extracted[lib] = {"kinds_in_source": src.get(lib, []), "kinds_expected": kinds}
         simple = [k for k in kinds if kind_class(k) in ("int", "float", "bool")]
+        if lib in ("Pow", "Mod"):
+            simple = [k for k in simple if kind_class(k) != "float"]      # see the `off` note below: no element oracle for float ^ and %
+        if lib in ("Mul", "Div"):
+            simple = [k for k in simple if k != "f64"]                    # off (solver time), see below
         qk = simple[seed % len(simple)]               # the quick-tier kind of this operator rotates with the seed
         for t in kinds:
             if arity == 2:
                 for (lf, rf) in FORM_PAIRS:
                     q = "quick" if (t == qk and ((lf, rf) in KERNEL_FORMS or lib == l1_full)) else "thorough"
+                    # IEEE corner cases (NaN, -0.0, infinities) are where an "equivalent" rewrite of a comparison or of +/- differs from the
+                    # operator (seeded change C01-3: `s <= m` rewritten as `!(m < s)`): the f64 kernels of the comparison operators run in
+                    # quick whatever kind the seed rotates to (f64 arithmetic kernels stay seed-rotated: solver time)
+                    if t == "f64" and (lf, rf) in KERNEL_FORMS and lib in QUICK_F64:
+                        q = "quick"
                     hs.append(gen_bin_l1(lib, t, lf, rf, 0, q))
                     if (lf, rf) != ("S", "S") and kind_class(t) in ("int", "float", "bool"):
                         hs.append(gen_bin_l1(lib, t, lf, rf, 1, "thorough"))
+                    if lib in ("Mul", "Div") and t in ("f64", "C64"):
+                        # symbolic-by-symbolic 64-bit float multipliers / dividers over all bit patterns: one 2-element f32 multiplication harness
+                        # needed 620 s, the f64 ones were not seen to finish (measured 2026-09-25).  Kept out of the registered tiers so that a
+                        # thorough run does not end inconclusive; f32 `*` and `/` (same kernels, same wiring) are in the thorough tier
+                        for h_ in hs[-(2 if (lf, rf) != ("S", "S") else 1):]:
+                            h_.tier = "off"
+                            h_.off_reason = "f64 / complex multiplication and division over all bit patterns: no verdict within the budget (f32: 620 s per harness)"
+                    if lib in ("Pow", "Mod") and kind_class(t) == "float":
+                        # powf / fmod are nondeterministic stubs in CBMC (each call returns an arbitrary value), so the element-wise oracle - the
+                        # same libm call on the same operands - does not agree with the kernel's own call: measured `VP:wrong-element` on the
+                        # unchanged tree for pow<f32> (2026-09-25).  IEEE correctness of float ^ and % is outside the claim (section C01);
+                        # the harnesses are kept for the record only
+                        for h_ in hs[-(2 if (lf, rf) != ("S", "S") else 1):]:
+                            h_.tier = "off"
+                            h_.off_reason = "float ^ / %: libm powf/fmod are nondeterministic stubs in CBMC, the element oracle cannot be stated (false alarm when run)"
             else:
                 for form in UN_FORMS:
                     hs.append(gen_un_l1(lib, t, form, 0, "quick" if t == qk else "thorough"))
@@ -479,15 +504,20 @@ def plan(tier, seed):
         if arity == 2:
             l2k = [k for k in L2_KINDS[cat] if k in kinds] or kinds[:1]
             for n, t in enumerate(l2k):
-                q = "quick" if (lib == l2_quick and n == 0) else "thorough"
+                # A quick command is stopped after 900 s INCLUDING the cold build of the scratch workspace, and every L2 feature slice is a
+                # separate build of mech-core + the operator crate.  Quick therefore runs the L2 level for one operator and one slice only
+                # (`*`, i16: the dispatch macro impl_binop_match_arms! is shared by all binary operators): 6 accept forms + 6 reject
+                # shapes.  Everything else at L2 is in the thorough tier.
+                q = "thorough"
                 for (lf, rf) in FORM_PAIRS:
-                    hs.append(gen_bin_l2_accept(lib, t, lf, rf, 0, q))
+                    aq = "quick" if (lib == "Mul" and n == 0 and (lf, rf) in L2_QUICK_FORMS) else q
+                    hs.append(gen_bin_l2_accept(lib, t, lf, rf, 0, aq))
                 for k in range(len(REJECT_SHAPES)):
                     # the equal-form shape mismatches (vd/vd, rd/rd, md/md: the first four REJECT_SHAPES and one md/md case) are in
                     # the quick tier for one operator per crate whose kernels zip the operands (nalgebra's own shape asserts, which
                     # guard + and -, do not help there): reverting the shape checks of the dispatch arms must be noticed by `quick`
                     rq = q
-                    if n == 0 and lib in ("Mul", "GT", "And") and k in (0, 2, 3, 4, 14, 17):
+                    if n == 0 and lib == "Mul" and k in (0, 2, 3, 4, 14, 17):
                         rq = "quick"
                     hs.append(gen_bin_l2_reject(lib, t, k, rq))
                 if n > 0:
